@@ -193,23 +193,25 @@ func kitRedisStore() *kitRedis {
 	k.idle = time.Duration(vn.Int("idle-timeout-s", 0, 4294967295)) * time.Second
 	k.now = vn.Time("now0")
 	clock := &Clock{NowFn: func() time.Time { return k.now }}
-	var client redis.Cmdable
-	if vn.Symbolic() {
-		k.model = newSymRedis(func() time.Time { return k.now })
-		client = k.model
-	} else {
-		mr, err := miniredis.Run()
-		if err != nil {
-			panic(err)
-		}
-		mr.SetTime(k.now)
-		k.mr = mr
-		client = redis.NewClient(&redis.Options{Addr: mr.Addr()})
-	}
+	client := kitRedisClient(k)
 	s, err := NewRedisStore(clock, client, k.abs, k.idle)
 	vn.Assert("kit/redis-store-created", err == nil)
 	k.store = s
 	return k
+}
+
+func kitRedisClient(k *kitRedis) redis.Cmdable {
+	if vn.Symbolic() {
+		k.model = newSymRedis(func() time.Time { return k.now })
+		return k.model
+	}
+	mr, err := miniredis.Run()
+	if err != nil {
+		panic(err)
+	}
+	mr.SetTime(k.now)
+	k.mr = mr
+	return redis.NewClient(&redis.Options{Addr: mr.Addr()})
 }
 
 // advance moves the clock forward to t (t >= now).
